@@ -474,9 +474,14 @@ def run_property(prop, tier, seed, replay=None):
                     sc = prop.spec_case(c, o)
                 except codec.Unsupported:
                     sc = None
-            spec_cs.append(sc)
-        spec_res = dict(zip([i for i, sc in enumerate(spec_cs) if sc is not None],
-                            runner.run([sc for sc in spec_cs if sc is not None])))
+            if sc is not None and not isinstance(sc, list):
+                sc = [sc]
+            spec_cs.append(sc or [])
+        flat = [(i, x) for i, scs in enumerate(spec_cs) for x in scs]
+        flat_res = runner.run([x for _, x in flat])
+        spec_res = {}
+        for (i, x), r in zip(flat, flat_res):
+            spec_res.setdefault(i, []).append((x, r))
         for idx, (c, m) in enumerate(zip(batch, models)):
             stats['evaluations'] += 1
             k = hashlib.sha1(c.key().encode()).hexdigest()
@@ -500,11 +505,13 @@ def run_property(prop, tier, seed, replay=None):
                 continue
             sv = prop.spec(c, obs, m)
             if idx in spec_res and sv is not False:
-                sr = spec_res[idx]
-                if sr[0] == 'b':
-                    sv2 = (sr[1] == 1)
-                    sv = sv2 if (sv is None or sv2 is False) else sv
-                    stats['spec_ops'] = stats.get('spec_ops', 0) + 1
+                for (sx, sr) in spec_res[idx]:
+                    if sr[0] == 'b':
+                        sv2 = (sr[1] == 1)
+                        sv = sv2 if (sv is None or sv2 is False) else sv
+                        stats['spec_ops'] = stats.get('spec_ops', 0) + 1
+                        if sv is False:
+                            break
             if sv is False:
                 violations.append((c, obs, m, 'spec false on implementation output'))
                 continue
@@ -692,8 +699,10 @@ def shrink_case(prop, runner, case, budget=300):
                 return True
             sc = prop.spec_case(c, obs)
             if sc is not None:
-                sr = runner.run([sc])[0]
-                return sr[0] == 'b' and sr[1] == 0
+                for x in (sc if isinstance(sc, list) else [sc]):
+                    sr = runner.run([x])[0]
+                    if sr[0] == 'b' and sr[1] == 0:
+                        return True
             return False
         except Exception:
             return False
